@@ -180,7 +180,7 @@ func ctxFor(host string) context.Context {
 func TestPropNoCrossClusterDecisions(t *testing.T) {
 	sub := stats.NewSub("request-sequences-over-hosts", "rapid: 2-3 clusters x 1-2 hosts each, per-cluster answer tables (token -> user / reject / error; (user, attributes) -> allow / deny / no opinion / error) that differ between clusters for the same key, cache TTLs in {0, 50 ms, 10 min}; a sequence of 5-40 ops: authenticate(host, token), authorize(host, user, attributes), cluster cannot be asked on/off, stop + recreate a cluster with new tables, and an alias re-homed to another cluster; oracle: every result is the answer of the host's own cluster (the user name carries the cluster id), only that cluster's API is invoked during the request, a cluster that cannot be asked yields not-authenticated / deny with an error; non-trivial = the same token / (user, attributes) was presented to >= 2 clusters with different answers while caching is on; distinct by FNV-64 of the op trace")
 	known := findings.Open(aliasMoveFinding)
-	stats.Check(t, stats.N(800, 12000), func(t *rapid.T) {
+	stats.Check(t, stats.N(1500, 10000), func(t *rapid.T) {
 		p := &provider{hosts: map[string]*clusterSim{}}
 		nClusters := rapid.IntRange(2, 3).Draw(t, "clusters")
 		ttls := []time.Duration{0, 50 * time.Millisecond, 10 * time.Minute}
